@@ -171,11 +171,55 @@ impl TransformAttr {
                 TransformType::Scale(sx, sy) => {
                     result = result.xfrm_scale(sx, sy);
                 }
-                _ => (),
+                // The others don't keep a box axis-parallel: the result is the
+                // box around the four transformed corners.
+                TransformType::Rotate(angle, cx, cy) => {
+                    let (sin, cos) = (angle as f64).to_radians().sin_cos();
+                    let (cx, cy) = (cx as f64, cy as f64);
+                    result = Self::corners(&result, |x, y| {
+                        let (x, y) = (x - cx, y - cy);
+                        (cx + x * cos - y * sin, cy + x * sin + y * cos)
+                    });
+                }
+                TransformType::SkewX(angle) => {
+                    let tan = (angle as f64).to_radians().tan();
+                    result = Self::corners(&result, |x, y| (x + y * tan, y));
+                }
+                TransformType::SkewY(angle) => {
+                    let tan = (angle as f64).to_radians().tan();
+                    result = Self::corners(&result, |x, y| (x, y + x * tan));
+                }
+                TransformType::Matrix(a, b, c, d, e, f) => {
+                    let (a, b, c, d, e, f) =
+                        (a as f64, b as f64, c as f64, d as f64, e as f64, f as f64);
+                    result =
+                        Self::corners(&result, |x, y| (a * x + c * y + e, b * x + d * y + f));
+                }
             }
         }
 
         result
+    }
+
+    fn corners(bbox: &BoundingBox, map: impl Fn(f64, f64) -> (f64, f64)) -> BoundingBox {
+        let (x1, y1, x2, y2) = (
+            bbox.x1 as f64,
+            bbox.y1 as f64,
+            bbox.x2 as f64,
+            bbox.y2 as f64,
+        );
+        let points = [map(x1, y1), map(x2, y1), map(x1, y2), map(x2, y2)];
+        let min = |f: fn(&(f64, f64)) -> f64| points.iter().map(f).fold(f64::INFINITY, f64::min);
+        let max =
+            |f: fn(&(f64, f64)) -> f64| points.iter().map(f).fold(f64::NEG_INFINITY, f64::max);
+        // (rounded as other computed numbers are, so that cos(90) is 0)
+        let r = |v: f64| ((v * 1e4).round() / 1e4) as f32;
+        BoundingBox::new(
+            r(min(|p| p.0)),
+            r(min(|p| p.1)),
+            r(max(|p| p.0)),
+            r(max(|p| p.1)),
+        )
     }
 }
 
